@@ -25,7 +25,7 @@ plan('C09',
           'Range, Expect abuse) against an application and a file server; (d) every request target over {. / %2e %2E %2f %25 a} up to a character length, 200 per connection, against a file server with '
           'a sentinel file outside the root; (e) all strings of URL metacharacters up to a length through Url(), Url::decode, parseQuery. distinct = hash of the stream / target / string',
      jobs=[
-         FuzzJob('fz_url', quick=200000, thorough=6000000, procs=(4, 12), max_len=200),
+         FuzzJob('fz_url', quick=200000, thorough=2000000, procs=(4, 12), max_len=200),
          Job(H, 'wellformed', 'asan', quick=1200, thorough=40000, shards=(4, 8), batch=100, case_timeout=250),
          Job(H, 'wellformed', 'plain', quick=2000, thorough=60000, shards=(3, 6), batch=200, case_timeout=250),
          Job(H, 'cuts', 'asan', quick=40, thorough=1200, shards=(4, 8), batch=10, case_timeout=200),
